@@ -279,6 +279,10 @@ class ParseTheory(CompilerTheory):
             return [(st, SV('TA', '(TAAtom %s)' % args[0].e))]
         if name == 'NumeralTerm' and so == ['Str']:
             return [(st, SV('TA', '(TANum %s)' % args[0].e))]
+        if name == 'VariableTerm' and so == ['Str']:
+            return [(st, SV('TA', '(TAVar %s)' % args[0].e))]
+        if name == 'AnonymousVariableTerm' and so == ['Int']:
+            return [(st, SV('TA', '(TAVar %s)' % anon_name_expr(ex.modname, args[0].e, e)))]
         if name == 'ListTerm' and so == ['TAL']:
             return [(st, SV('TA', '(TAListT %s)' % args[0].e))]
         if name == 'ListPairTerm' and so == ['TA', 'TA']:
